@@ -74,8 +74,27 @@ def dynsrv_cases(rng, tier):
         out.append((c[0], ['cfg nopipe'] + c[1]))
     return out
 
+def replycode_cases(rng, tier):
+    """a server packet with EVERY code value 0..255: for an identifier with an outstanding request and for one without
+    (nothing in such a packet is authenticated before its code is looked at and named in a log line)"""
+    import focus, pipeline
+    out = []
+    codes = list(range(256))
+    for k in range(0, 256, 32):
+        cfg = focus._cfg1(rng)
+        now = 1000005
+        ops = []
+        pkt, _ = focus._req(rng, cfg, 0, 1, ident=9, uname=b'bob@example.com')
+        ops.append('op cpkt 0 %d %s %s' % (now, pipeline.rnd40(rng), hx(pkt)))
+        ops.append('op wpass 0 %d %s' % (now, pipeline.rnd40(rng)))
+        for code in codes[k:k + 32]:
+            for ident, flags in ((7, 'badauth'), (7, '-'), (0, 'badauth')):
+                ops.append('op sreply 0 %d %d %s %d %s 18:%s' % (ident, now, pipeline.rnd40(rng), code, flags, hx(b'x')))
+        out.append(('rcode-%d' % k, cfg.conf_lines() + cfg.cfg_lines() + ops))
+    return out
+
 def generate(rng, tier):
-    out = dns_cases(rng, tier) + dynsrv_cases(rng, tier)
+    out = dns_cases(rng, tier) + dynsrv_cases(rng, tier) + replycode_cases(rng, tier)
     for name in ('C05', 'C04', 'C06', 'C01', 'C18', 'C15', 'C02', 'C03', 'C16'):
         mod = importlib.import_module(name)
         sub = mod.generate(rng, 'quick' if tier == 'quick' else 'thorough')
